@@ -1,35 +1,112 @@
+mod campaign;
+mod check;
+mod replay;
 mod rng;
 mod script;
 mod sim;
 mod simfs;
+mod sql;
 mod value;
 
-use script::{Scenario, Stmt, run_scenario, Outcome};
+use campaign::{CampaignCfg, run_campaign, report, write_evidence};
+use script::{Outcome, Scenario, Stmt, run_scenario};
 use sim::{Chooser, Policy};
 
+fn env_u64(k: &str, d: u64) -> u64 {
+    std::env::var(k).ok().and_then(|s| s.parse().ok()).unwrap_or(d)
+}
+
+fn verif_root() -> String {
+    std::env::var("VERIF_ROOT").unwrap_or_else(|_| "/verif".to_string())
+}
+
+pub fn base_cfg(property: &str, tier: &str) -> CampaignCfg {
+    let root = verif_root();
+    CampaignCfg {
+        property: property.to_string(),
+        tier: tier.to_string(),
+        seed: env_u64("VERIF_SEED", 1),
+        runs: 0,
+        max_wall_s: if tier == "quick" { 240 } else { 3000 },
+        threads: env_u64("VERIF_THREADS", 16) as usize,
+        replay_dir: format!("{root}/replays"),
+        known_path: format!("{root}/known_findings.json"),
+        evidence_path: std::env::var("VERIF_EVIDENCE").unwrap_or_else(|_| format!("{root}/evidence/{property}.json")),
+        level: "exploration".into(),
+        rule: String::new(),
+        assumptions: vec![],
+        components_real: vec![
+            "glaredb_parser".into(),
+            "glaredb_core (binder, planner, optimizer, operators, result stream)".into(),
+            "glaredb_ext_csv".into(),
+            "glaredb_ext_parquet".into(),
+        ],
+        components_stub: vec![
+            "thread pool / task state machine (replaced by the L1 SimRuntime)".into(),
+            "local/http/s3/gcs filesystems (replaced by SimFs)".into(),
+            "wall clock (SimInstant)".into(),
+            "tokio, wasm runtime (not started)".into(),
+        ],
+        max_reported: env_u64("VERIF_MAX_REPORT", 6) as usize,
+    }
+}
+
 fn main() {
+    unsafe { std::env::set_var("RUST_BACKTRACE", "0") };
     sim::install_quiet_panic_hook();
     let args: Vec<String> = std::env::args().collect();
-    match args.get(1).map(|s| s.as_str()) {
+    let code = match args.get(1).map(|s| s.as_str()) {
         Some("sql") => {
-            let seed: u64 = std::env::var("VERIF_SEED").ok().and_then(|s| s.parse().ok()).unwrap_or(1);
-            let stmts: Vec<Stmt> = args[2..].iter().map(|s| Stmt::new(s.clone())).collect();
-            let mut sc = Scenario::single(stmts);
-            if std::env::var("POLICY").ok().as_deref() == Some("random") { sc.sim.policy = Policy::Random; }
-            let rep = run_scenario(&sc, Chooser::generating(rng::Rng::new(seed)), None);
-            println!("end={:?} steps={} trace={:x}", rep.end, rep.stats.steps, rep.trace);
-            for (i, o) in rep.outcomes[0].iter().enumerate() {
-                match &o.outcome {
-                    Outcome::Rows(t) => {
-                        println!("[{i}] {:?} {:?} rows={}", t.names, t.types, t.rows.len());
-                        for l in value::render_rows(&t.rows, 30) { println!("    {l}"); }
-                    }
-                    Outcome::Error{msg, planned} => println!("[{i}] ERROR planned={planned}: {msg}"),
-                    Outcome::Dropped{..} => println!("[{i}] dropped"),
+            cmd_sql(&args[2..]);
+            0
+        }
+        Some("check") => {
+            let prop = args.get(2).cloned().unwrap_or_default();
+            let tier = args.get(3).cloned().unwrap_or_else(|| "quick".into());
+            check::dispatch(&prop, &tier)
+        }
+        Some("replay") => check::replay_file(args.get(2).map(|s| s.as_str()).unwrap_or("")),
+        _ => {
+            eprintln!("usage: glaresim sql <stmt>... | check <property> <tier> | replay <file>");
+            2
+        }
+    };
+    std::process::exit(code);
+}
+
+fn cmd_sql(stmts: &[String]) {
+    let seed = env_u64("VERIF_SEED", 1);
+    let stmts: Vec<Stmt> = stmts.iter().map(|s| Stmt::new(s.clone())).collect();
+    let mut sc = Scenario::single(stmts);
+    if std::env::var("POLICY").ok().as_deref() == Some("random") {
+        sc.sim.policy = Policy::Random;
+    }
+    let rep = run_scenario(&sc, Chooser::generating(rng::Rng::new(seed)), None);
+    println!("end={:?} steps={} trace={:x}", rep.end, rep.stats.steps, rep.trace);
+    for l in &rep.parked_desc {
+        println!("  {l}");
+    }
+    for (i, o) in rep.outcomes[0].iter().enumerate() {
+        match &o.outcome {
+            Outcome::Rows(t) => {
+                println!("[{i}] {:?} {:?} rows={}", t.names, t.types, t.rows.len());
+                for l in value::render_rows(&t.rows, 30) {
+                    println!("    {l}");
                 }
             }
-            println!("{:?}", rep.stats);
+            Outcome::Error { msg, planned } => println!("[{i}] ERROR planned={planned}: {msg}"),
+            Outcome::Dropped { .. } => println!("[{i}] dropped"),
+            Outcome::Panic { msg } => println!("[{i}] PANIC {msg}"),
         }
-        _ => eprintln!("usage: glaresim sql <stmt>..."),
     }
+    println!("{:?}", rep.stats);
+}
+
+pub fn finish(cfg: &CampaignCfg, check: &dyn campaign::Check, extra: serde_json::Value) -> i32 {
+    let res = run_campaign(cfg, check);
+    if let Err(e) = write_evidence(cfg, &res, extra) {
+        eprintln!("harness error: cannot write evidence: {e}");
+        return 2;
+    }
+    report(cfg, &res)
 }
